@@ -88,6 +88,11 @@ def unquoteValue (pv : List Char) : List Char :=
     replace ['%', '2', '2'] ['"'] (replace ['\\', '"'] ['"'] (replace ['\\', '\\'] ['\\'] (pv.drop 1).dropLast))
   else pv
 
+/-- the three `str.replace(old, new)` steps of the "remove quotes" block, in the order the source
+applies them (tied to the source by `Props.C02.options_quoted_value_as_modelled`) -/
+def quotedReplaceSteps : List (List Char × List Char) :=
+  [(['\\', '\\'], ['\\']), (['\\', '"'], ['"']), (['%', '2', '2'], ['"'])]
+
 /-- `_continuation_re.search(pk)`: `\*(\d+)$` — the key without the `*N` suffix, if it has one -/
 def continuationKey (pk : List Char) : Option (List Char) :=
   let digits := (pk.reverse.takeWhile Char.isDigit).length
